@@ -200,8 +200,9 @@ Definition c02_event (c : cfg) (e : event) : bool :=
                        | None => removal_ok c e m
                        end) (ev_before e)
   && forallb (insert_ok e) (inserted e)
-  (* evictions only in favour of messages actually stored, one each at most *)
-  && (Z.of_nat (length (evicted c e)) <=? Z.of_nat (length (filter (insert_ok e) (ev_after e)))).
+  (* evictions only in favour of messages actually stored (how many per stored message is C12's clause,
+     which excludes queues an operator has lifted above max_depth: there both backends evict more than they store) *)
+  && (Nat.eqb (length (evicted c e)) 0 || negb (Nat.eqb (length (filter (insert_ok e) (ev_after e))) 0)).
 
 (** ** C03: lease exclusivity *)
 Definition lease_ids (l : list msg) : list N :=
